@@ -247,7 +247,6 @@ class List(list, base.Symbolic, pg_typing.CustomTyping):
     """
     if value_spec is None:
       self._value_spec = None
-      self._accessor_writable = True
       return self
 
     if not isinstance(value_spec, pg_typing.List):
